@@ -25,6 +25,8 @@ StepF(s, e) ==
       [] e.op = "reject" -> RejectF(s)
       [] e.op = "run" -> RunF(s)
       [] e.op = "apply" -> ApplyF(s, e.id, e.kind)
+      [] e.op = "source" -> SourceF(s, e.id, e.kind)
+      [] e.op = "evalfn" -> EvalFnF(s, e.id, e.kind)
       [] e.op = "clear" -> ClearF(s)
 
 (* what the host observed after the call, against the model state after it *)
